@@ -44,6 +44,9 @@ func vpInbound(policy MessageSignaturePolicy, author bool) {
 	vpCryptoSet("key_is_author", b2i(keyIsAuthor))
 	vpCryptoSet("sig_valid", b2i(sigValid))
 	vpCryptoSet("sig_by_other", b2i(sigByOther))
+	// how the author's key type reports a signature that does not verify: (false, nil) as ed25519 does, or (false, error)
+	// as RSA, ECDSA and secp256k1 do
+	vpCryptoSet("sig_mismatch_is_error", b2i(vpBool("key_type_reports_mismatch_as_error")))
 	topic := vpT0
 	m := &pb.Message{Data: []byte("d"), Topic: &topic}
 	if hasFrom {
